@@ -112,6 +112,13 @@ func (t *XMPPTransport) StartTLS() error {
 	return nil
 }
 
+// forThisConnection returns a transport that stays with the connection established now, whatever connection this
+// transport is given next (see Client.keepaliveTransport).
+func (t *XMPPTransport) forThisConnection() Transport {
+	bound := *t
+	return &bound
+}
+
 func (t *XMPPTransport) Ping() error {
 	if t.conn == nil {
 		return errors.New("cannot ping: not connected")
